@@ -119,6 +119,60 @@ func nbtValues() []struct {
 	}
 }
 
+// sizeValues: one value per (payload kind, size class), see sizeDocs.
+func sizeValues() []struct {
+	id string
+	v  any
+} {
+	var out []struct {
+		id string
+		v  any
+	}
+	add := func(id string, v any) {
+		out = append(out, struct {
+			id string
+			v  any
+		}{id, v})
+	}
+	for _, s := range sizeClasses() {
+		i32, u32 := make([]int32, s/4), make([]uint32, s/4)
+		for i := range i32 {
+			i32[i], u32[i] = int32(i+1), uint32(i+1)
+		}
+		i64, u64 := make([]int64, s/8), make([]uint64, s/8)
+		for i := range i64 {
+			i64[i], u64[i] = int64(i+1), uint64(i+1)
+		}
+		i16 := make([]int16, s/2)
+		for i := range i16 {
+			i16[i] = int16(i + 1)
+		}
+		strs := make([]string, s/5)
+		for i := range strs {
+			strs[i] = text(3 + i%2)[i%2:]
+		}
+		anyInts := make([]any, s/4)
+		for i := range anyInts {
+			anyInts[i] = int32(i + 1)
+		}
+		p := fmt.Sprintf("size=%d:", s)
+		add(p+"[]byte", pattern(s))
+		add(p+"[]bool", make([]bool, s))
+		add(p+"[]int32", i32)
+		add(p+"[]uint32", u32)
+		add(p+"[]int64", i64)
+		add(p+"[]uint64", u64)
+		add(p+"[]any-int32", anyInts)
+		add(p+"string", text(min(s, 32767)))
+		add(p+"[]string", strs)
+		add(p+"[]int16", i16)
+		add(p+"struct-list-tags", asList{V: i32, W: i64, T: 4})
+		add(p+"map-long-key", map[string]int32{text(min(s, 32767)): 1})
+		add(p+"RawMessage", nbt.RawMessage{Type: nbt.TagByteArray, Data: refnbt.AppendPayload(nil, nBA(make([]int64, s)...))})
+	}
+	return out
+}
+
 func nbtWriteOps() []*WriteOp {
 	var ops []*WriteOp
 	for _, network := range []bool{false, true} {
@@ -128,7 +182,11 @@ func nbtWriteOps() []*WriteOp {
 			format = "network"
 		}
 		op := &WriteOp{Name: "nbt.Encode[" + format + "]"}
-		for _, e := range nbtValues() {
+		vals := nbtValues()
+		if !network || rep.Thorough() || rep.ReplayPath != "" {
+			vals = append(vals, sizeValues()...) // quick tier: the size classes in the file format only
+		}
+		for _, e := range vals {
 			e := e
 			op.Inputs = append(op.Inputs, WInput{e.id, func(w io.Writer) (int64, error) {
 				enc := nbt.NewEncoder(w)
@@ -139,7 +197,11 @@ func nbtWriteOps() []*WriteOp {
 		ops = append(ops, op)
 	}
 	op := &WriteOp{Name: "NBTField.WriteTo"}
-	for _, e := range nbtValues() {
+	vals := nbtValues()
+	if rep.Thorough() || rep.ReplayPath != "" {
+		vals = append(vals, sizeValues()...)
+	}
+	for _, e := range vals {
 		e := e
 		op.Inputs = append(op.Inputs, WInput{e.id, func(w io.Writer) (int64, error) { return pk.NBT(e.v).WriteTo(w) }})
 	}
@@ -174,6 +236,36 @@ func wireWriteOps() []*WriteOp {
 			}
 		}
 		ops = append(ops, op)
+	}
+
+	// ---- size classes (see sizeDocs)
+	for _, s := range sizeClasses() {
+		s := s
+		id := fmt.Sprintf("size=%d", s)
+		for _, thr := range []int{-1, 64} {
+			thr := thr
+			name := "Pack[no-compression]"
+			if thr >= 0 {
+				name = fmt.Sprintf("Pack[threshold=%d]", thr)
+			}
+			for _, op := range ops {
+				if op.Name == name {
+					p := pk.Packet{ID: 1, Data: noise(s)}
+					op.Inputs = append(op.Inputs, WInput{"id=1,payload=" + id + "-incompressible", func(w io.Writer) (int64, error) { return -1, p.Pack(w, thr) }})
+				}
+			}
+		}
+		longs := make(pk.BitSet, s/8)
+		ints := make([]pk.Int, s/4)
+		for i := range ints {
+			ints[i] = pk.Int(i + 1)
+		}
+		field("String["+id+"]", wf(id, pk.String(text(s))))
+		field("ByteArray["+id+"]", wf(id, pk.ByteArray(pattern(s))))
+		field("PluginMessageData["+id+"]", wf(id, pk.PluginMessageData(pattern(s))))
+		field("BitSet["+id+"]", wf(id, longs))
+		field("FixedBitSet["+id+"]", wf(id, pk.FixedBitSet(pattern(s))))
+		field("Ary[VarInt]<Int>["+id+"]", wf(id, pk.Ary[pk.VarInt]{Ary: ints}))
 	}
 
 	// ---- fields
